@@ -19,8 +19,8 @@ ID = "C19"
 CASES = {"quick": 640, "thorough": 8000}
 FLOOR = {"quick": 520, "thorough": 6500}
 FLOOR_COUNTERS = {
-    "quick": {"membership_lps": 9000, "height_lps": 14000, "queries_judged": 9000, "relation_fits": 1000, "hulls_with_unselected": 400, "estimators_with_a_past": 500, "non_float64_features": 150, "non_default_tolerance": 120},
-    "thorough": {"membership_lps": 140000, "height_lps": 220000, "queries_judged": 140000, "relation_fits": 14000, "hulls_with_unselected": 5000, "estimators_with_a_past": 7000, "non_float64_features": 2000, "non_default_tolerance": 1600},
+    "quick": {"membership_lps": 9000, "height_lps": 14000, "queries_judged": 9000, "relation_fits": 1000, "hulls_with_unselected": 400, "estimators_with_a_past": 500, "non_float64_features": 150, "non_default_tolerance": 120, "configured_by_attribute_assignment": 500},
+    "thorough": {"membership_lps": 140000, "height_lps": 220000, "queries_judged": 140000, "relation_fits": 14000, "hulls_with_unselected": 5000, "estimators_with_a_past": 7000, "non_float64_features": 2000, "non_default_tolerance": 1600, "configured_by_attribute_assignment": 7000},
 }
 RULE = (
     "case = samples with 1-3 hull dimensions and 0-3 extra high-dimensional columns placed in any column order (low_dim_idx in "
@@ -73,6 +73,7 @@ def gen(rng, tier, index):
         "yunit": yunit,
         "xdtype": xdtype,
         "past": bool(rng.random() < 0.4),
+        "how": gens.pick(rng, ("ctor", "ctor", "setattr", "setattr_after_decoy")),
         "low": low,
         "kind": kind,
         "a": float(rng.uniform(0.1, 5.0)),
@@ -120,7 +121,16 @@ def run(case, j):
     def hull(label=""):
         """A fresh hull object, or one with a past: fitted to other data (same columns), asked for distances and
         residuals, then fitted to the data of the case."""
-        mm = DCH(low_dim_idx=list(low), tolerance=T)
+        how = case.get("how", "ctor")
+        if how == "ctor":
+            mm = DCH(low_dim_idx=list(low), tolerance=T)
+        else:
+            # the class has no set_params: an existing object is re-configured by assigning its public attributes
+            other = [c for c in range(X.shape[1]) if c not in low][: len(low)] or [low[-1]]
+            mm = DCH(low_dim_idx=other, tolerance=1e-9) if how == "setattr_after_decoy" else DCH()
+            mm.low_dim_idx = list(low)
+            mm.tolerance = T
+            j.note("configured_by_attribute_assignment")
         if case.get("past"):
             n0 = int(prng.integers(d + 3, 30))
             X0 = prng.normal(size=(n0, X.shape[1])) * 2 + 1
